@@ -35,7 +35,7 @@ add('C07', 'l1', 'Generated key-set variations (absent / null / surplus keys and
 add('C08', 'l1', 'Exhaustive part: the enumerated 4-locale domain (125 inherits maps x 27 presence patterns, 7 reference shapes) with locale-specific member names. Random part: generated keys whose per-locale values differ in kind and member sets (and deliberate count conflicts); the InterpolOrLit computed by the parser is compared with the union over locales of the AST members after substitution.',
     L1_NOTE + 'stage 2 = compile probes on generated crates: per key the valid call with exactly the union set (string and view back-ends; formatted variables as typed values) must compile with no error of any kind (compiled once without the negative probes so that borrow-check errors are not masked), and each omitted member / unknown member / unknown key / wrongly typed count must not compile.')
 add('C09', 'l1', 'Grammar-aware adversarial mutations of generated projects (delimiters, multi-byte characters, hostile ranges / bounds / counts / references / key names, mutated manifests) run in-process under catch_unwind through parse_locales, the build-script API and the code generator; deep / long values run in child processes with an 8 MiB stack; regression inputs of all earlier panics. Oracle: Ok or a non-empty error, never a panic, abort or signal.',
-    'A child still running after 120 s is inconclusive (exit 2). Stack overflows on 65-130 kB single values are recorded as known finding D9. Coverage-guided byte-level fuzzing (libFuzzer) is the second stage of the thorough tier.',
+    'A child still running after 120 s is inconclusive (exit 2). Stack overflows on 65-130 kB single values are recorded as known finding D9. Stage 2 (generated crates): packages that expand load_locales!() three times in one crate must compile and run (state surviving an expansion inside the compiler process). Coverage-guided byte-level fuzzing (libFuzzer) is the last stage of the thorough tier.',
     technique='property-based testing with grammar-aware mutation (+ libFuzzer in the thorough tier), crash oracle')
 add('C10', 'l1', 'Metamorphic: repeated loads + in-process code generation (same process, fresh processes), sampled permutations of object-key order, and the same AST printed as JSON / YAML / JSON5 loaded by three feature builds must agree (byte-identical dumps within a format; key tree, diagnostics and evaluated text across formats). Stage 2 on a harness build without the plural / formatter features: the macro flavour and the build-script flavour of the loader called alternately on one thread must each return what the project alone determines.',
     'Trusted: the three printers in ser.rs. Integers above i64::MAX are excluded (json5 has no u64).',
